@@ -156,15 +156,19 @@ DbPair == /\ Is("DbPair")
 SamePair == /\ Is("SamePair")
             /\ bad' = IF Ev.a = Ev.b THEN bad ELSE bad \cup {<<"samepair", l>>}
             /\ UNCHANGED <<relA, relP, doneP, floor, hiS, hiT, hiP, snap, req, produced, fpos>>
+\* C10: a file with a different genesis validators root or interchange version must be refused
+RcEv == /\ Is("Rc")
+        /\ bad' = IF Ev.must_reject /\ Ev.rc = 0 THEN bad \cup {<<"notrejected", l>>} ELSE bad
+        /\ UNCHANGED <<relA, relP, doneP, floor, hiS, hiT, hiP, snap, req, produced, fpos>>
 \* C11: an export states exactly the highest signed values of a key (histories of well-formed requests)
 Exported == /\ Is("Exported")
             /\ bad' = IF Ev.s = Get(hiS, Ev.k) /\ Ev.t = Get(hiT, Ev.k) /\ Ev.slot = Get(hiP, Ev.k) THEN bad ELSE bad \cup {<<"exported", l>>}
             /\ UNCHANGED <<relA, relP, doneP, floor, hiS, hiT, hiP, snap, req, produced, fpos>>
 
-Other == /\ l <= Len(Trace) /\ Ev.ev \notin {"Begin", "Floor", "Invoke", "Release", "Respond", "Fault", "Produce", "Export", "DbPair", "SamePair", "Exported"}
+Other == /\ l <= Len(Trace) /\ Ev.ev \notin {"Begin", "Floor", "Invoke", "Release", "Respond", "Fault", "Produce", "Export", "DbPair", "SamePair", "Exported", "Rc"}
          /\ l' = l + 1 /\ UNCHANGED <<relA, relP, doneP, floor, hiS, hiT, hiP, snap, req, produced, fpos, bad>>
 
-Next == Begin \/ FloorEv \/ Invoke \/ Release \/ Respond \/ FaultEv \/ Produce \/ ExportEv \/ DbPair \/ SamePair \/ Exported \/ Other
+Next == Begin \/ FloorEv \/ Invoke \/ Release \/ Respond \/ FaultEv \/ Produce \/ ExportEv \/ DbPair \/ SamePair \/ Exported \/ RcEv \/ Other
 Spec == Init /\ [][Next]_vars
 
 HighWater == TLCSet(1, IF l > TLCGet(1) THEN l ELSE TLCGet(1))
@@ -182,5 +186,6 @@ AboveFloor == \A b \in bad : b[1] # "floor"
 DbPairsHold == \A b \in bad : b[1] # "dbpair"
 SamePairsHold == \A b \in bad : b[1] # "samepair"
 ExportFaithful == \A b \in bad : b[1] # "exported"
+RejectOK == \A b \in bad : b[1] # "notrejected"
 AdvancingSigned == \A b \in bad : b[1] # "advancing"
 =============================================================================
